@@ -7,7 +7,15 @@ const C09_RULES: &[&str] = &[
     "SCREAMING-KEBAB-CASE",
 ];
 const C09_ALPHABET: &[char] = &['a', 'b', 'Z', 'Q', '0', '7', '_', 'ä', 'Ä', 'ß', '中'];
-const C09_POSITIONS: &[&str] = &["field", "variant_field_raf", "variant_field_ra", "variant", "variant_field_both"];
+const C09_POSITIONS: &[&str] = &[
+    "field", "variant_field_raf", "variant_field_ra", "variant", "variant_field_both",
+    // secondary positions: the same names reached through other code paths of the derive
+    "field_type", "field_as", "field_optional", "field_inline", "variant_internal_struct", "variant_internal_unit",
+    "variant_adjacent_tuple", "variant_external_struct", "field_tuple_struct_variant_internal",
+];
+/// the first C09_PRIMARY positions are enumerated over all identifiers; the others over the
+/// identifiers up to length 3, the extra list and the random part
+const C09_PRIMARY: usize = 5;
 const C09_EXTRA_IDENTS: &[&str] = &[
     "r#type", "r#fn", "r#match", "r#Type", "r#async", "fooBar", "foo_bar", "FooBar", "Foo_Bar", "_foo", "foo_", "foo__bar",
     "__", "___", "_0", "a1b2", "HTTPServer", "getHTTP_response", "x", "X", "I18n", "ÄpfelÖl", "größe_max", "中文_名",
@@ -35,8 +43,21 @@ fn c09_item(position: &str, rule: &str, ident: &str, serde_spelling: bool) -> St
             let other = C09_RULES[(C09_RULES.iter().position(|r| *r == rule).unwrap_or(0) + 3) % C09_RULES.len()];
             format!("#[{attr}(rename_all_fields = \"{other}\")] enum Zq9Container {{ #[{attr}(rename_all = \"{rule}\")] Vv {{ {ident}: i32 }}, Ww {{ other_field: i32 }} }}")
         }
+        "field_type" => format!("#[{attr}(rename_all = \"{rule}\")] struct Zq9Container {{ #[ts(type = \"Zq9Container\")] {ident}: i32, plain_other: i32 }}"),
+        "field_as" => format!("#[{attr}(rename_all = \"{rule}\")] struct Zq9Container {{ #[ts(as = \"String\")] {ident}: i32 }}"),
+        "field_optional" => format!("#[{attr}(rename_all = \"{rule}\")] struct Zq9Container {{ #[ts(optional)] {ident}: Option<i32>, }}"),
+        "field_inline" => format!("#[{attr}(rename_all = \"{rule}\")] struct Zq9Container {{ #[ts(inline)] {ident}: Vec<i32>, }}"),
+        "variant_internal_struct" => format!("#[{attr}(tag = \"Zq9tag\", rename_all = \"{rule}\")] enum Zq9Container {{ {ident} {{ plain_other: i32 }}, Zz9Other }}"),
+        "variant_internal_unit" => format!("#[{attr}(tag = \"Zq9tag\", rename_all = \"{rule}\")] enum Zq9Container {{ {ident}, Zz9Other {{ plain_other: i32 }} }}"),
+        "variant_adjacent_tuple" => format!("#[{attr}(tag = \"Zq9tag\", content = \"Zq9content\", rename_all = \"{rule}\")] enum Zq9Container {{ {ident}(i32, String), Zz9Other }}"),
+        "variant_external_struct" => format!("#[{attr}(rename_all = \"{rule}\")] enum Zq9Container {{ {ident} {{ plain_other: i32 }}, Zz9Other(i32) }}"),
+        "field_tuple_struct_variant_internal" => format!("#[{attr}(tag = \"Zq9tag\", rename_all_fields = \"{rule}\")] enum Zq9Container {{ Vv {{ {ident}: i32 }}, Ww }}"),
         _ => unreachable!(),
     }
+}
+
+fn c09_is_variant_position(position: &str) -> bool {
+    position == "variant" || (position.starts_with("variant_") && !position.starts_with("variant_field"))
 }
 
 /// `None`: serde_derive itself panics on this identifier (the program does not derive serde).
@@ -46,13 +67,13 @@ fn c09_expected(position: &str, rule: &str, ident: &str) -> Option<String> {
         Ok(r) => r,
         Err(_) => return None,
     };
-    let is_variant = position == "variant";
+    let is_variant = c09_is_variant_position(position);
     catch_unwind(move || if is_variant { rule.apply_to_variant(&name) } else { rule.apply_to_field(&name) }).ok()
 }
 
 fn c09_nontrivial(position: &str, ident: &str) -> bool {
     let name = ident.strip_prefix("r#").unwrap_or(ident);
-    if position == "variant" {
+    if c09_is_variant_position(position) {
         // canonical input form of variants: ([A-Z][a-z0-9]*)+
         let mut chars = name.chars().peekable();
         let mut ok = chars.peek().is_some();
@@ -84,7 +105,7 @@ fn c09_eval(position: &str, rule: &str, ident: &str, serde_spelling: bool, stats
     };
     let src = c09_item(position, rule, ident, serde_spelling);
     let case = json!({"kind": "c09", "position": position, "rule": rule, "ident": ident, "serde_spelling": serde_spelling, "item": src});
-    let class = if position == "variant" { "variant" } else { "field" };
+    let class = if c09_is_variant_position(position) { "variant" } else { "field" };
     match expand(&src) {
         Expanded::NotAnItem(_) => {
             stats.discarded += 1;
@@ -137,13 +158,14 @@ fn c09_all_idents(maxlen: usize) -> Vec<String> {
 }
 
 fn c09_excluded(exclude: &[String], position: &str, rule: &str) -> bool {
-    let class = if position == "variant" { "variant" } else { "field" };
+    let class = if c09_is_variant_position(position) { "variant" } else { "field" };
     exclude.iter().any(|e| *e == format!("case-{class}-{rule}") || *e == format!("derive-panic-{class}-{rule}"))
 }
 
 fn c09_run(tier: &str, seed: u64, exclude: &[String]) -> Report {
     let maxlen = if tier == "thorough" { 5 } else { 4 };
     let mut idents = c09_all_idents(maxlen);
+    let exhaustive_len = idents.len();
     idents.extend(C09_EXTRA_IDENTS.iter().map(|s| s.to_string()));
     let serde_on = cfg!(feature = "serde-compat");
     let nthreads = 16;
@@ -157,7 +179,10 @@ fn c09_run(tier: &str, seed: u64, exclude: &[String]) -> Report {
                         if i % nthreads != ti {
                             continue;
                         }
-                        for position in C09_POSITIONS {
+                        for (pi, position) in C09_POSITIONS.iter().enumerate() {
+                            if pi >= C09_PRIMARY && ident.chars().count() > 3 && i < exhaustive_len {
+                                continue;
+                            }
                             for rule in C09_RULES {
                                 if c09_excluded(exclude, position, rule) {
                                     r.excluded_known += 1;
